@@ -58,7 +58,7 @@ def check(run):
     ch = versgen.chains(run)
     allacc = [t for e in ECOS for t in acc[e][:50]]
     runs = []
-    reps = 2 if quick else 25
+    reps = 2 if quick else 50
     for s in sh:
         names = ECOS if s["name"] == "eco" else ["vers"] if s["name"] == "vers" else UNKNOWN if s["name"] == "unknown" else [None]
         for nm in names:
